@@ -39,8 +39,16 @@ func checkC01(r *run, m *PacketModel) (CaseInfo, error) {
 	if len(buf) != size {
 		return ci, failf("Packet.Marshal produced %d bytes, MarshalSize()=%d", len(buf), size)
 	}
-	if again, err := p.Marshal(); err != nil || !bytes.Equal(again, buf) {
-		return ci, failf("a second Marshal of the same packet differs from the first (err %v)", err)
+	{
+		// the caller owns what Marshal returned: overwriting it must not reach the packet or a later Marshal
+		pristine := clone(buf)
+		for i := range buf {
+			buf[i] ^= 0xFF
+		}
+		buf = pristine
+		if again, err := p.Marshal(); err != nil || !bytes.Equal(again, buf) {
+			return ci, failf("a second Marshal of the same packet (after the caller overwrote the first result) differs from the first (err %v)", err)
+		}
 	}
 	// encoder conformance against the independent reference (so that a symmetric
 	// encode/decode defect cannot hide): the strict RFC parser must read the model back.
